@@ -491,6 +491,8 @@ pub struct ScriptedSub {
     /// scenario-specific action performed inside on_notify (e.g. unsubscribe another subscriber,
     /// dispatch to another store)
     pub hook: Option<SubHook>,
+    /// on_unsubscribe parks at this gate (NOGATE: does not)
+    pub unsub_gate: u8,
     /// the first on_unsubscribe call panics (after recording the call)
     pub panic_on_unsub: std::sync::atomic::AtomicBool,
 }
@@ -522,6 +524,9 @@ impl Subscriber<St, Act> for ScriptedSub {
         self.ctx.ev(K::SUnsub, store, 0, self.id, 0, 0, 0);
         if let Some(c) = &self.unsub_counter {
             c.add(1);
+        }
+        if self.unsub_gate != NOGATE {
+            self.ctx.gate_wait(self.unsub_gate, store, 0);
         }
         if self.panic_on_unsub.swap(false, std::sync::atomic::Ordering::Relaxed) {
             std::panic::panic_any(PANIC_MARK);
